@@ -32,7 +32,7 @@ M = [
  ("m26", "db.go", "r.H.fileID == int64(pendingMergeFId) && r.H.dataPos > uint64(off)", "r.H.fileID == int64(pendingMergeFId) && r.H.dataPos >= uint64(off)", ["C15"], "Merge skips the newest version of a key when it is in the file being merged (key lost)"),
  ("m27", "tx.go", "\tif tx.db.txIDNode == nil {\n\t\tnode, err := snowflake.NewNode(tx.db.opt.NodeNum)", "\tif tx.db.txIDNode == nil || !tx.writable {\n\t\tnode, err := snowflake.NewNode(tx.db.opt.NodeNum)", None, "(unused)"),
  ("m28", "bptree.go", "\tqueueMu.Lock()\n\tdefer queueMu.Unlock()\n\n", "", ["C14"], "WriteNodes of two databases share the traversal queue unguarded"),
- ("m30", "db.go", "\t\t\t\tif err == ErrCrc && dataID == dataFileIds[len(dataFileIds)-1] {\n\t\t\t\t\tbreak\n\t\t\t\t}\n", "", ["C10", "C09"], "Open fails again on a torn last record (parseDataFiles)"),
+ ("m30", "db.go", "\t\t\tif err == ErrCrc {\n\t\t\t\tif off < db.opt.SegmentSize {", "\t\t\tif err == ErrCrc && off == 0 {\n\t\t\t\tif off < db.opt.SegmentSize {", ["C10", "C09"], "Open tolerates a torn last record only at the start of the file (getActiveFileWriteOff); the earlier form of this mutant - no tolerance in parseDataFiles - became equivalent when recovery started to wipe the torn tail before the files are parsed"),
  ("m31", "tx.go", "\t\tif tx.db.ActiveFile.ActualSize+entrySize > tx.db.opt.SegmentSize {", "\t\tif tx.db.ActiveFile.ActualSize+entrySize >= tx.db.opt.SegmentSize {", None, "(benign: rotates one entry early)"),
  ("m32", "tx_set.go", "\tif err := tx.sPut(bucket1, key1, DataDeleteFlag, item); err != nil {\n\t\treturn false, err\n\t}\n\n\tif err := tx.sPut(bucket2, key2, DataSetFlag, item); err != nil {", "\tif err := tx.sPut(bucket2, key2, DataDeleteFlag, item); err != nil {\n\t\treturn false, err\n\t}\n\n\tif err := tx.sPut(bucket2, key2, DataSetFlag, item); err != nil {", ["C06"], "SMove forgets to remove the member from the source"),
  ("m33", "tx.go", "\ttx.unlock()\n\n\ttx.db = nil\n\ttx.pendingWrites = nil\n\n\treturn nil\n}\n\n// lock locks", "\ttx.db = nil\n\ttx.pendingWrites = nil\n\n\treturn nil\n}\n\n// lock locks", None, "(breaks tests: deadlock)"),
